@@ -3845,6 +3845,8 @@ func (p *Parser) parseAlterChangeStream(pos token.Pos) *ast.AlterChangeStream {
 				Options: p.parseOptions(),
 			}
 			return cs
+		} else {
+			p.panicfAtToken(&p.Token, "expected FOR or OPTIONS, but: %s", p.Token.Kind)
 		}
 	} else if p.Token.IsKeywordLike("DROP") {
 		droppos := p.Token.Pos
